@@ -891,6 +891,17 @@ class PrintWorld(Renderer):
         elif k == "script_hook":
             self._script(op["name"], stype=op.get("type", "gcode"), send=False)
             self.stats["fault:script_hook_extra"] += 1
+        elif k == "upload_new":
+            # benign concurrent traffic: an upload is filtered offline while the print goes on
+            import io
+            self._proc = seams._SP_mod.StreamProcessor(io.BytesIO(b""), self.plugin.gcodeHandlers)
+            self.stats["fault:upload_concurrent"] += 1
+        elif k == "upload_line":
+            if getattr(self, "_proc", None) is not None:
+                try:
+                    self._proc.process_line(op["text"])
+                except Exception:
+                    self.stats["upload_line_raised"] += 1
         else:
             raise KeyError("unknown op %r" % (k,))
         seams.CLOCK.now = 1.7e9 + self.sim_time
@@ -1034,6 +1045,8 @@ class PrintWorld(Renderer):
             self.bus.fire(Events.PRINT_FAILED)
         elif kind == "error_only":
             self.bus.fire(Events.ERROR)
+        elif kind == "silent":
+            pass        # the job just stops: no end event reaches the plugin (restart_no_end)
         else:
             self.bus.fire(Events.PRINT_FAILED)
         if op.get("deliver", True):
